@@ -952,7 +952,18 @@ def _run_single(case, obs):
         obs.close("expvar_vs_reduced_fit", np.asarray(model.explained_variance().values, float), red["ev"][:k], TOL,
                   scale=max(red["ev"][0], 1e-300), tags=dict(op="explained_variance", symptom="expvar_ne_reduced"))
         ok = _gapped_modes(red["sv"], k, kr == k)
-        if red["comps"].ndim == 2:
+        if np.iscomplexobj(red["comps"]) and (case["cplx"] or cls == "HilbertEOF"):
+            # complex-valued decomposition: a mode is unique only up to ONE unit-modulus factor shared by its component
+            # and its score (DESIGN section 4) -> align that single phase per mode, then demand equality
+            obs.cell("complex_phase_aligned")
+            a, b = np.nan_to_num(red["comps"]), np.nan_to_num(comps)
+            axes = (0,) + tuple(range(2, a.ndim))
+            ph = (a.conj() * b).sum(axis=axes)
+            ph = np.where(np.abs(ph) > 0, ph / np.maximum(np.abs(ph), 1e-300), 1.0)
+            red["comps"] = red["comps"] * ph.reshape((1, -1) + (1,) * (a.ndim - 2))
+            red["scores"] = red["scores"] * ph[None, :]
+            obs.note("max_phase_deviation", float(np.abs(ph - 1).max()))
+        elif red["comps"].ndim == 2:
             ok &= ~_sign_tie(red["comps"])
         if ok.any():
             obs.close("components_vs_reduced_fit", comps[:, ok], red["comps"][:, ok], TOL, scale=1.0,
